@@ -59,7 +59,7 @@ inductive Res where
   | errConflict   -- errWritePieceConflict
   | errSum        -- "write piece: invalid piece sum"
   | errStore      -- any error of the file store (get download writer, seek/copy, metadata, move)
-  | panic         -- index out of range
+  | panic         -- index out of range (not reachable: every slice access is guarded)
   deriving Repr, DecidableEq
 
 inductive PC where
@@ -111,9 +111,10 @@ inductive Action where
 def writeAt (f : Bytes) (off : Nat) (d : Bytes) : Bytes :=
   (f ++ List.replicate (off - f.length) 0).take off ++ d ++ f.drop (off + d.length)
 
-/-- `NewTorrent`: restorePieces from the `_status` sidecar (or "all complete" when the file is
-    already in the cache directory), commit when every piece is complete. -/
-def openTorrent (s : State) : State :=
+/-- `NewTorrent` once the status vector has one entry per piece: restorePieces from the `_status`
+    sidecar (or "all complete" when the file is already in the cache directory), commit when every
+    piece is complete. -/
+def openTorrentCore (s : State) : State :=
   if s.inCache then
     -- GetOrSetMetadata on the download scope fails with a cache-state FileStateError
     { s with pieces := List.replicate s.mi.numPieces .complete, numComplete := s.mi.numPieces,
@@ -125,6 +126,12 @@ def openTorrent (s : State) : State :=
       { s with pieces := pieces, numComplete := nc, inCache := true, committed := true }
     else
       { s with pieces := pieces, numComplete := nc, committed := false }
+
+/-- `NewTorrent`: a `_status` sidecar of the wrong length (left by a crash) describes no piece and is
+    reset to "all empty" before the pieces are restored from it. -/
+def openTorrent (s : State) : State :=
+  if s.inCache ∨ s.status.length = s.mi.numPieces then openTorrentCore s
+  else openTorrentCore { s with status := List.replicate s.mi.numPieces 0 }
 
 /-- a freshly created download file (CreateDownloadFile: truncate to length) and its first Torrent -/
 def init (mi : MetaInfo) : State :=
@@ -148,8 +155,7 @@ def stepThread (crc : Bytes → Nat) (s : State) (tid : Nat) (k : Nat) : State :
   | some t =>
     match t.pc with
     | .start =>
-      if t.pi ≥ s.pieces.length then setThread s tid (finish t .errIndex)
-      else if t.pi < 0 then setThread s tid (finish t .panic)          -- t.pieces[pi]
+      if t.pi < 0 ∨ t.pi ≥ s.pieces.length then setThread s tid (finish t .errIndex)   -- getPiece
       else if (t.payload.length : Int) ≠ s.mi.pieceLength t.pi then setThread s tid (finish t .errLength)
       else setThread s tid { t with pc := .fastComplete, idx := t.pi.toNat }
     | .fastComplete =>
@@ -241,15 +247,13 @@ inductive ReadRes where
 /-- `GetPieceReader(pi)` followed by reading it to the end (FileReader: seek to the piece offset
     in the file, in whichever state directory it is, and read at most the piece length) -/
 def readPiece (s : State) (pi : Int) : ReadRes :=
-  if pi ≥ s.pieces.length then .errIndex
-  else if pi < 0 then .panic
+  if pi < 0 ∨ pi ≥ s.pieces.length then .errIndex
   else match s.pieces[pi.toNat]? with
     | some .complete => .bytes ((s.file.drop (s.mi.pl * pi.toNat)).take (s.mi.pieceLength pi).toNat)
     | _ => .errNotComplete
 
 def hasPiece (s : State) (pi : Int) : Option Bool :=
-  if pi ≥ s.pieces.length then some false
-  else if pi < 0 then none    -- panic
+  if pi < 0 ∨ pi ≥ s.pieces.length then some false
   else some (s.pieces[pi.toNat]? = some .complete)
 
 /-- run thread `tid` until it is done, giving every write the chunk size `k` (fuel-bounded; the
